@@ -3,6 +3,7 @@ package main
 import (
 	"context"
 	"fmt"
+	"net"
 	"strings"
 	"sync"
 	"time"
@@ -493,7 +494,7 @@ func runC05(c *Ctx) {
 	}
 }
 
-func init() { c05Extra = c05History }
+func init() { c05Extra = func(c *Ctx) { c05History(c); c05HistoryPassive(c) } }
 
 var c05Extra func(*Ctx)
 
@@ -591,5 +592,109 @@ func c05History(c *Ctx) {
 			c.Violate("property", "last-notification-after-close", fmt.Sprintf("after Close the last notification's next is %v", notes[len(notes)-1].next), replay)
 		}
 		mu.Unlock()
+	}
+}
+
+// c05HistoryPassive: the passive role. A peer connects, selects (pipelining Select.req + data, or
+// Select.req + Deselect.req + Select.req in one write), drops, reconnects; Close races the accept loop and the
+// receive goroutine's synchronous commits. Oracles: State() after Close, the notification chain, no
+// notification after Close, last notification's next state.
+func c05HistoryPassive(c *Ctx) {
+	iters := c.Pick(60, 600)
+	for it := 0; it < iters; it++ {
+		r := c.Rng
+		ep, err := NewEndpoint(false, []hsms.ConnOption{hsms.WithT7(300 * time.Millisecond), hsms.WithCloseTimeout(2 * time.Second)})
+		if err != nil {
+			c.Note("c05 passive setup: %v", err)
+			return
+		}
+		if err := ep.Open(); err != nil {
+			c.Note("c05 passive open: %v", err)
+			ep.Shutdown()
+			return
+		}
+		c.Count(fmt.Sprintf("hist-passive|%d", it), true)
+		c.Stat("history-passive")
+		closeAfter := time.Duration(r.IntN(6000)) * time.Microsecond
+		variant := r.IntN(3)
+		stop := make(chan struct{})
+		var wg sync.WaitGroup
+		wg.Add(1)
+		go func() { // the peer: connect, select, misbehave a little, drop, again
+			defer wg.Done()
+			first := true
+			for g := 0; g < 6; g++ {
+				select {
+				case <-stop:
+					return
+				default:
+				}
+				var p *ScriptPeer
+				var err error
+				if first {
+					p, err = ep.Attach(500 * time.Millisecond)
+					first = false
+				} else {
+					var raw net.Conn
+					raw, err = ep.DialRaw(200 * time.Millisecond)
+					if err == nil {
+						p = NewScriptPeer(raw)
+					}
+				}
+				if err != nil {
+					time.Sleep(300 * time.Microsecond)
+					continue
+				}
+				sel := mkFrame(0xFFFF, 0, 0, 0, 1, sysOf(uint32(0x100+g)), nil)
+				switch variant {
+				case 0:
+					_ = p.Send(sel)
+				case 1: // select + deselect + select in one write
+					des := mkFrame(0xFFFF, 0, 0, 0, 3, sysOf(uint32(0x200+g)), nil)
+					sel2 := mkFrame(0xFFFF, 0, 0, 0, 1, sysOf(uint32(0x300+g)), nil)
+					_ = p.WriteRaw(append(append(sel.Wire(), des.Wire()...), sel2.Wire()...))
+				default: // select + data in one write
+					data := mkFrame(0xFFFF, 1, 1, 0, 0, sysOf(uint32(0x400+g)), nil)
+					_ = p.WriteRaw(append(sel.Wire(), data.Wire()...))
+				}
+				time.Sleep(time.Duration(r.IntN(800)) * time.Microsecond)
+				p.Close()
+			}
+		}()
+		time.Sleep(closeAfter)
+		_ = ep.Conn.Close()
+		closedAt := time.Now()
+		st0 := ep.Conn.State()
+		time.Sleep(2 * time.Millisecond)
+		st1 := ep.Conn.State()
+		close(stop)
+		wg.Wait()
+		states := ep.States()
+		replay := map[string]any{"mode": "history: passive connection; peer connects / selects (variant " + fmt.Sprint(variant) + ") / drops repeatedly; Close races",
+			"close_delay_us": closeAfter.Microseconds(), "iteration": it, "seed": c.Seed, "notifications": states}
+		if st0 != hsms.NotConnectedState || st1 != hsms.NotConnectedState {
+			c.Violate("property", "state-after-close-not-notconnected", fmt.Sprintf("passive: State() == %v right after Close returned, %v 2 ms later", st0, st1), replay)
+		}
+		cur := "0"
+		for i, s := range states {
+			pn := strings.Split(s, ">")
+			if pn[0] == pn[1] {
+				c.Violate("property", "self-transition-notified", fmt.Sprintf("passive: notification %d is %s", i, s), replay)
+			}
+			if pn[0] != cur {
+				c.Violate("property", "notification-chain-broken-live", fmt.Sprintf("passive: notification %d is %s but the preceding next was %s", i, s, cur), replay)
+			}
+			cur = pn[1]
+		}
+		if len(states) > 0 && cur != "0" {
+			c.Violate("property", "last-notification-after-close", "passive: after Close the last notification's next is "+cur, replay)
+		}
+		time.Sleep(time.Millisecond)
+		if n := len(ep.States()); n != len(states) {
+			c.Violate("property", "notification-after-close", fmt.Sprintf("passive: %d notification(s) delivered after Close returned (at %v)", n-len(states), closedAt), replay)
+		}
+		if ep.ln != nil {
+			_ = ep.ln.Close()
+		}
 	}
 }
